@@ -20,7 +20,11 @@ import re
 import common
 
 THEOREMS = ["C04_codec_roundtrip", "C04_xml_compat", "C04_xml_pairs_closed", "C04_xml", "C04_top_lists",
-            "C04_xml_store", "C04_truthy_on_typed_value_rejected", "C04_example", "C04_store_example"]
+            "C04_xml_store", "C04_single_roundtrip", "C04_single_members", "C04_single_classes",
+            "C04_truthy_on_typed_value_rejected", "C04_example", "C04_store_example"]
+LSS_CLASSES = ["MultiLanguageNameType", "MultiLanguageTextType", "DefinitionTypeIEC61360", "PreferredNameTypeIEC61360",
+               "ShortNameTypeIEC61360"]
+_META = [None]       # the metamodel table of the running check (for the oracle's own canonical form)
 PRELUDE = ("From Coq Require Import List ZArith String.\n"
            "From Basyx Require Import model.XmlCodec model.XmlCompat model.XmlMeta model.XmlEntry model.XmlObs "
            "gen.Gen_XmlWriter gen.Gen_XmlReader.\nOpen Scope string_scope.")
@@ -406,6 +410,15 @@ def oracle_single(obj, member):
         return (f"C04:single:{member}:raises:{type(e).__name__}", f"{type(e).__name__}: {str(e)[:300]}")
     if type(back) is not type(obj):
         return (f"C04:single:{member}:type", f"{type(obj).__name__} came back as {type(back).__name__}")
+    if class_name(obj) in LSS_CLASSES + ["ValueList"]:
+        # bare lang string sets / value lists are no aasgen.META classes, and ValueReferencePair has identity
+        # equality: compare through this module's canonical form (unordered collections by membership)
+        a, b = xval(_META[0], obj, set()), xval(_META[0], back, set())
+        if nkey(a) != nkey(b):
+            return (f"C04:single:{member}:diff:items", f"{cval(a)[:180]} != {cval(b)[:180]}")
+        if class_name(obj) in LSS_CLASSES and list(obj.items()) != list(back.items()):
+            return (f"C04:single:{member}:diff:order", "language order changed")
+        return None
     d = aasgen.diff(strip_type(aasgen.canon(obj)), strip_type(aasgen.canon(back)), "")
     if d:
         return (f"C04:single:{member}:diff:" + norm_path(d), d[:400])
@@ -461,7 +474,7 @@ SINGLE_GEN = ["Key", "ExternalReference", "ModelReference", "AdministrativeInfor
               "DataSpecificationIEC61360", "AssetAdministrationShell", "Submodel", "Property",
               "MultiLanguageProperty", "Range", "Blob", "File", "ReferenceElement", "SubmodelElementCollection",
               "SubmodelElementList", "RelationshipElement", "AnnotatedRelationshipElement", "Operation", "Capability",
-              "Entity", "BasicEventElement"]
+              "Entity", "BasicEventElement"] + LSS_CLASSES + ["ValueList"]
 
 
 def gen_single_case(meta, seed, i, depth, stats, cls=None):
@@ -472,6 +485,10 @@ def gen_single_case(meta, seed, i, depth, stats, cls=None):
     g = aasgen.Gen(rng, depth=depth, strings=rng.choice(["xml", "xml", "json", "plain"]))
     if cname == "ValueReferencePair":
         obj = model.ValueReferencePair(g.text(2000), g.ref())
+    elif cname == "ValueList":
+        obj = {model.ValueReferencePair(g.text(2000), g.ref()) for _ in range(rng.randint(1, 4))}
+    elif cname in LSS_CLASSES:
+        obj = g.lang(cname)
     else:
         obj = g.obj(cname)
     sanitise(meta, obj, stats)
@@ -539,7 +556,8 @@ def load_tables(chk):
     except Exception as e:
         chk.tie_broken("model-eval", f"{type(e).__name__}: {e}: {out[-800:]}")
         return None
-    return Meta(meta_t), wsingle, striples, unsupported, failures
+    _META[0] = Meta(meta_t)
+    return _META[0], wsingle, striples, unsupported, failures
 
 
 def triple_of(x):
@@ -634,6 +652,8 @@ def run(chk):
                     break
     # ---- constructables the reader offers but object_to_xml_element cannot produce (it raises)
     single_writer_gaps(chk, unsupported)
+    # ---- every key type in every reference position (typed and untyped model references, external references)
+    reference_stress(chk)
     # ---- XML lexical stress through a Property / MultiLanguageProperty / File / Blob in one submodel
     lex_fail = lexical_stress(chk)
 
@@ -755,9 +775,106 @@ def run(chk):
     return chk.finish(level="proof",
                       rule="per-case PRNG random.Random('C04:seed:kind:i'); stores of 3 identifiables at depth 3 from "
                            "aasgen.Gen (all classes, optional attributes present/absent, all XSD types with edge values, "
-                           "lexical stress strings); single objects of 29 classes through every matching "
+                           "lexical stress strings); single objects of 35 classes (incl. bare lang string sets and value lists) through every matching "
                            "XMLConstructables member; correspondence on the single objects (enc, dec, wf) and on small "
                            "stores (write_store/read_store); non-trivial = every case (distinct by kind and index)")
+
+
+def reference_chains():
+    """All short key chains over the whole KeyTypes enumeration that the SDK's Reference constructors accept
+    (AASd-121..128 are enforced there, so the set follows the implementation): the domain of Key.type at the
+    last / middle position of model and external references, which random generation covers only sparsely."""
+    from basyx.aas import model
+    KT = model.KeyTypes
+    kts = [k for k in KT if not k.name.startswith("_")]
+    cands = []
+    for first in (KT.SUBMODEL, KT.ASSET_ADMINISTRATION_SHELL, KT.CONCEPT_DESCRIPTION, KT.GLOBAL_REFERENCE):
+        cands.append([first])
+        for k in kts:
+            cands.append([first, k])
+            for mid in (KT.FILE, KT.BLOB, KT.SUBMODEL_ELEMENT_LIST, KT.SUBMODEL_ELEMENT_COLLECTION, KT.ENTITY,
+                        KT.FRAGMENT_REFERENCE, KT.GLOBAL_REFERENCE):
+                cands.append([first, mid, k])
+    out = []
+    for n, chain in enumerate(cands):
+        keys = tuple(model.Key(kt, "urn:x:%d" % n if j == 0 else ("3" if j and chain[j - 1] is KT.SUBMODEL_ELEMENT_LIST
+                                                                  else "el%d" % j))
+                     for j, kt in enumerate(chain))
+        for mk in (lambda: model.ModelReference(keys, model.Referable), lambda: model.ExternalReference(keys)):
+            try:
+                out.append(mk())
+            except Exception:       # AASConstraintViolation / ValueError: not a valid reference
+                pass
+    return out
+
+
+def reference_store(ref, with_rs=None):
+    """one submodel (+ shell, concept description) carrying `ref` in every reference-valued attribute it fits"""
+    from basyx.aas import model
+    D = model.datatypes
+    is_model = isinstance(ref, model.ModelReference)
+    if with_rs is not None:
+        ref = type(ref)(ref.key, *([model.Referable] if is_model else []), referred_semantic_id=with_rs) \
+            if not is_model else model.ModelReference(ref.key, model.Referable, with_rs)
+    g = model.ExternalReference((model.Key(model.KeyTypes.GLOBAL_REFERENCE, "urn:g"),))
+    sm_ref = model.ModelReference((model.Key(model.KeyTypes.SUBMODEL, "urn:refs:sm"),), model.Submodel)
+    elems = [
+        model.ReferenceElement("re", value=ref),
+        model.RelationshipElement("rel", first=ref, second=ref),
+        model.Property("p", D.Int, 0, value_id=ref, semantic_id=ref, supplemental_semantic_id=[g, ref],
+                       qualifier=[model.Qualifier("q", D.Int, 0, value_id=ref, semantic_id=ref)]),
+        model.BasicEventElement("ev", observed=ref if is_model else sm_ref, direction=model.Direction.OUTPUT,
+                                state=model.StateOfEvent.ON, message_broker=ref),
+        model.SubmodelElementList("l", model.ReferenceElement, semantic_id_list_element=ref,
+                                  value=[model.ReferenceElement(None, value=ref)]),
+    ]
+    if is_model:
+        elems.append(model.Capability("cap", extension=[model.Extension("x", D.String, "", refers_to=[ref, sm_ref])]))
+    sm = model.Submodel("urn:refs:sm", submodel_element=elems, semantic_id=ref,
+                        administration=model.AdministrativeInformation("1", creator=ref))
+    objs = [sm]
+    cd = model.ConceptDescription("urn:refs:cd", is_case_of={ref, g})
+    objs.append(cd)
+    if is_model:
+        objs.append(model.AssetAdministrationShell(model.AssetInformation(global_asset_id="urn:a"), "urn:refs:aas",
+                                                   submodel={ref, sm_ref}, derived_from=ref))
+    else:
+        cd.embedded_data_specifications.append(model.EmbeddedDataSpecification(
+            ref, model.base.DataSpecificationIEC61360(model.PreferredNameTypeIEC61360({"en": "n"}), unit_id=ref)))
+        objs.append(model.AssetAdministrationShell(model.AssetInformation(
+            global_asset_id="urn:a", specific_asset_id=[model.SpecificAssetId("n", "v", external_subject_id=ref,
+                                                                              semantic_id=ref)]), "urn:refs:aas"))
+    return model.DictObjectStore(objs)
+
+
+def reference_stress(chk, only=None):
+    import logging
+    prev = logging.root.manager.disable
+    logging.disable(logging.WARNING)     # the reader warns about every last key that does not name the expected class
+    try:
+        _reference_stress(chk, only)
+    finally:
+        logging.disable(prev)
+
+
+def _reference_stress(chk, only=None):
+    refs = reference_chains()
+    for k, ref in enumerate(refs):
+        if only is not None and k != only:
+            continue
+        chk.seen(("ref", k), nontrivial=True)
+        chk.count("reference_stress:" + type(ref).__name__)
+        chk.count("reference_last_key:" + ref.key[-1].type.name)
+        try:
+            st = reference_store(ref, with_rs=refs[(k * 7 + 3) % len(refs)] if k % 3 == 0 else None)
+        except Exception as e:          # the SDK refuses the reference in one of the positions: not a valid model
+            chk.count("reference_stress_rejected_by_sdk:" + type(e).__name__)
+            continue
+        bad = oracle_store(st)
+        if bad:
+            chain = "/".join(x.type.name for x in ref.key)
+            chk.fail(bad[0].replace("C04:store", "C04:refs"), f"{type(ref).__name__} {chain}: {bad[1]}",
+                     {"kind": "refs", "k": k, "reference": chain, "class": type(ref).__name__, "diff": bad[1]})
 
 
 BOOL_TEXTS = ["true", "false", "1", "0", " true", "false ", "\n1\t", " 0 ", "\r\n true \r\n", "TRUE", "", " ", "yes",
@@ -912,6 +1029,11 @@ def replay(path):
         bad = oracle_single(obj, rp["member"])
         print("oracle:", bad)
         return 1 if bad else 0
+    if rp.get("kind") == "refs":
+        c2 = common.Check("C04", "quick", seed)
+        reference_stress(c2, only=rp["k"])
+        print("oracle:", [f["what"][:300] for f in c2.failures])
+        return 1 if c2.failures else 0
     if rp.get("kind") == "gap":
         c2 = common.Check("C04", "quick", seed)
         single_writer_gaps(c2, [rp["member"]])
